@@ -12,6 +12,37 @@ import (
 
 func init() { register("C15", ruleC15) }
 
+// parentStoredInHelper: some function reachable from af inside the package (other than af) stores
+// into a ParentSequence field, or af hands the feature pointer to a call that is not resolved.
+func parentStoredInHelper(af *ssa.Function) bool {
+	found := false
+	for _, g := range family(af) {
+		if g == af {
+			continue
+		}
+		eachInstr(g, func(i ssa.Instruction) {
+			if s, ok := i.(*ssa.Store); ok {
+				if fa, ok := s.Addr.(*ssa.FieldAddr); ok && storeFieldName(fa) == "ParentSequence" {
+					found = true
+				}
+			}
+		})
+	}
+	eachInstr(af, func(i ssa.Instruction) {
+		if ci, ok := i.(ssa.CallInstruction); ok && ci.Common().StaticCallee() == nil && ci.Common().IsInvoke() == false {
+			if _, isB := ci.Common().Value.(*ssa.Builtin); isB {
+				return
+			}
+			for _, a := range ci.Common().Args {
+				if a == ssa.Value(af.Params[1]) {
+					found = true
+				}
+			}
+		}
+	})
+	return found
+}
+
 // checkAddFeature: AddFeature links the parent BEFORE taking the copy it appends (shared with C01/C02).
 func checkAddFeature(c *Ctx, rule string) {
 	af := c.W.method("", "Sequence", "AddFeature")
@@ -42,6 +73,8 @@ func checkAddFeature(c *Ctx, rule string) {
 	})
 	st, why := unknown, "the append of the copied feature was not recognised"
 	switch {
+	case linkStore == nil && parentStoredInHelper(af):
+		why = "ParentSequence is stored inside a helper of AddFeature; the order of link and copy is not followed through it"
 	case linkStore == nil:
 		st, why = broken, "AddFeature never stores the sequence into feature.ParentSequence: re-added features have no parent, GetSequence cannot find their bases"
 	case copyLoad != nil && domInstr(copyLoad, linkStore) && !domInstr(linkStore, copyLoad):
